@@ -338,7 +338,8 @@ class LinearSolverStub:
         data = np.asarray(data)
         if not self.src.symbolic:
             clp, res = self.real(matrix.astype(float), data.astype(float))
-            self.calls.append({"matrix": matrix.copy(), "data": data.copy(), "clp": np.asarray(clp), "res": np.asarray(res), "fn": self.name})
+            self.calls.append({"matrix": matrix.copy(), "data": data.copy(), "clp": np.asarray(clp), "res": np.asarray(res), "fn": self.name,
+                               "phase": getattr(self, "phase", 0)})
             return clp, res
         if matrix.ndim != 2 or data.ndim != 1 or matrix.shape[0] != data.shape[0]:
             raise ValueError(f"linear solver called with shapes {matrix.shape} {data.shape}")
@@ -356,7 +357,8 @@ class LinearSolverStub:
             clp[j] = SymReal(z3.Real(f"c{self.tag}{kid}_{j}"))
         for i in range(m):
             res[i] = SymReal(z3.Real(f"r{self.tag}{kid}_{i}"))
-        self.calls.append({"matrix": matrix.copy(), "data": data.copy(), "clp": clp, "res": res, "kid": kid, "fn": self.name})
+        self.calls.append({"matrix": matrix.copy(), "data": data.copy(), "clp": clp, "res": res, "kid": kid, "fn": self.name,
+                           "phase": getattr(self, "phase", 0)})
         return clp, res
 
     def substitution(self):
@@ -548,15 +550,17 @@ def group_is_linked(cfg, gname, dss):
     return bool(link)
 
 
-def spec_problems(cfg, src):
+def spec_problems(cfg, src, pv_override=None):
     """Independent specification: ordered list of linear problems and the equal-area penalties.
+
+    pv_override: {label: term} - values of plain parameters other than the scheme's (objective at another optimiser vector).
 
     Returns (problems, penalties) where problems is a list of dicts with keys
     group, rows [(ds, t, g)], labels (reduced, canonical order), cols {label: [row terms]}, y [row terms],
     full_labels, info (zero / related), index_value, kind ('index'|'full') and penalties is a list of
     functions clp_lookup -> term (see spec_penalties).
     """
-    pv = with_expression_values(cfg, {lab: src.term(f"P_{lab}") for lab in param_labels(cfg)})
+    pv = with_expression_values(cfg, {lab: (pv_override or {}).get(lab, src.term(f"P_{lab}")) for lab in param_labels(cfg)})
     problems = []
     pen_specs = []
     for gname, dss in groups_of(cfg).items():
